@@ -125,12 +125,21 @@ def run(ctx):
         base = cc.run_impl(k, c, ops)
         for j in range(len(ops) + 1):
             before = c if j == 0 else base[j - 1][1]
-            for kind, b in plain.items():
+            for kind, b0 in plain.items():
                 before = before[:6] + [cc.CONF if (j + kind) % 2 else before[6]] + before[7:]
-                rows = cc.run_impl(k, before, [[1, b]])
-                ctx.tried("plain_answer_refused", key=f"{k[3]}:{before[0]}:{kind}")
-                if not isinstance(rows[0][0], E):
-                    ctx.fail("plain_answer_delivered", {"cfg": lib.v_text(k), "cst": lib.v_text(before), "plain": b.hex(), "kind": kind}, "refused", lib.v_text(rows[0][0])[:200])
+                # the plain answer itself, and the same answer inside a general-glo-ciphering envelope whose security control
+                # says "no protection applied" (neither authenticated nor encrypted), with a fresh counter and the meter's title
+                from dlms_cosem.a_xdr import encode_variable_integer
+                title = before[3] or cc.METER_TITLE
+                wrapped = []
+                for sc in (k[3], 0x40 + k[3], 0x80 + k[3]):
+                    inner = bytes([sc]) + min(4294967295, before[2] + 1).to_bytes(4, "big") + b0
+                    wrapped.append((f"{kind}/sc{sc:02x}", bytes([219, 8]) + title + encode_variable_integer(len(inner)) + inner))
+                for label, b in [(str(kind), b0)] + (wrapped if (j + kind) % 3 == 0 else wrapped[:1]):
+                    rows = cc.run_impl(k, before, [[1, b]])
+                    ctx.tried("plain_answer_refused", key=f"{k[3]}:{before[0]}:{label}")
+                    if not isinstance(rows[0][0], E):
+                        ctx.fail("plain_answer_delivered", {"cfg": lib.v_text(k), "cst": lib.v_text(before), "plain": b.hex(), "kind": label}, "refused", lib.v_text(rows[0][0])[:200])
     ctx.corr([("dlms_script", [k, cc.cst(state=st, mic=3, mtitle=cc.METER_TITLE, conf=cc.CONF if st % 2 else cc.CONF_C), [[1, b]]]) for k in (sessions[0][0], sessions[3][0]) for st in range(12) for b in plain.values()],
              impl, "plain_answers", decisive=lambda op, a: True)
     ctx.sample({"kind": "search", "what": "outputs decrypted with OpenSSL under the configured keys"})
